@@ -61,6 +61,42 @@ PROPS["C17"] = {
 }
 
 
+_SCHED_RULE = ("Generated: programs of 2..4 threads x 1..3 lock operations with 0..3 extra scheduling points inside the critical "
+               "section, executed on a deterministic scheduler that owns every interleaving at the granularity of single atomic "
+               "operations, futex calls and spin_loop hints (the lock sources are the repository's text compiled against shim "
+               "atomics/futex). Schedules: random tapes, bounded preemption (<=4 forced switches, strict run-to-block otherwise), "
+               "PCT-like priorities with <=3 priority drops; event tapes choose which waiter a wake picks, spurious futex returns, "
+               "EINTR and spurious weak-CAS failures. Sub-check *-exh2 ENUMERATES every placement of <=2 forced preemptions for all "
+               "two-thread programs with <=2 operations per thread. Oracle: exclusion monitor, happens-before race detector on the "
+               "protected value (vector clocks; release/acquire edges only as the code's orderings provide them), last-written-value "
+               "model, deadlock state (no runnable thread), try-variants never park, no panic, lock free again at the end. "
+               "Non-trivial = at least one futex_wait actually blocked or a context switch happened while the lock was held; "
+               "distinct by hash of (program, executed trace of (thread, operation kind)).")
+
+PROPS["C01"] = {
+    "level": "exploration",
+    "engine": "E3 sched (owned-schedule explorer)",
+    "package": "sched", "bin": "sched",
+    "profiles": ["dev", "release"],
+    "workers": 8,
+    "technique": "schedule-owning stateful property testing: generated programs x generated/enumerated schedules against an exclusion monitor, a vector-clock race detector and a deadlock-state check",
+    "rule": _SCHED_RULE,
+    "assumptions": ["values are sequentially consistent; orderings are checked through happens-before on the protected data only",
+                    "the futex model follows futex(2): value check and enqueue are atomic, wake returns the number woken, spurious returns and EINTR allowed",
+                    "real-thread stress (sub-check real-*) samples OS schedules only",
+                    "at most 4 threads, one lock"],
+    "required_classes": ["mutex:futex-wait-blocked", "mutex:unlock-woke-a-sleeper", "mutex:wake-with-nobody-asleep", "mutex:futex-wait-eagain",
+                         "mutex:spurious-wake", "mutex:eintr", "mutex:wake-chose-among-several-waiters", "mutex:switch-while-held",
+                         "mutex-exh2:futex-wait-blocked", "mutex:try-failed"],
+    "timeout_quick": 900,
+}
+
+PROPS["C02"] = dict(PROPS["C01"])
+PROPS["C02"]["required_classes"] = ["rwlock:futex-wait-blocked", "rwlock:unlock-woke-a-sleeper", "rwlock:wake-with-nobody-asleep",
+                                    "rwlock:spurious-wake", "rwlock:eintr", "rwlock:weak-cas-spurious-fail",
+                                    "rwlock:wake-chose-among-several-waiters", "rw-exh2:futex-wait-blocked"]
+
+
 # fragments: lib/props.d/<id>.py each define ID and CFG
 import glob as _glob
 import importlib.util as _ilu
